@@ -76,6 +76,7 @@ def classify2(prog, f, sink, what, d, n):
     F forwarded to the caller, X unbounded"""
     from .linear import Lin
     L = Lin(prog, f)
+    L.at = sink.bb
     if what in ("strcpy", "strcat"):
         # length = strlen(source) + 1 (+ strlen(dest) for strcat): find the strlen of the same string
         src = n
@@ -156,11 +157,51 @@ def _same_str(prog, f, a, b):
     return (strip_casts(b1) is strip_casts(b2) or same_quantity(prog, f, b1, b2)) and o1 == o2
 
 
+def _scanned_forward_from(f, src, dst):
+    """every definition of pointer src leads back to dst through phis, non-negative constant steps and strchr-like searches"""
+    dst = strip_casts(dst)
+    seen = set()
+    stack = [src]
+    hit = False
+    while stack:
+        v = strip_casts(stack.pop())
+        if id(v) in seen:
+            continue
+        seen.add(id(v))
+        if v is dst:
+            hit = True
+            continue
+        if not v.is_inst:
+            return False
+        if v.op == "phi":
+            stack.extend(v.ops)
+        elif v.op == "getelementptr":
+            for el in v.x["gep"]:
+                if not (el[0] in ("*", "[]") and el[1].is_const and el[1].is_int and el[1].sval >= 0):
+                    return False
+            stack.append(v.ops[0])
+        elif v.op == "call" and norm_callee(v.callee) in ("strchr", "strrchr", "strstr", "memchr", "strpbrk"):
+            stack.append(v.ops[0])
+        else:
+            return False
+    return hit
+
+
 def _inplace_shift(prog, f, L, sink, what, d, n):
     """memmove(s + a, s + b, strlen(s + b) + 1) with a <= b: a NUL-terminated string is shifted towards its start"""
     if what != "memmove":
         return None
     src = sink.ops[1]
+    # the source was found by scanning forward from the destination inside the same NUL-terminated string
+    # (strchr / ++ only) and the length is strlen(source) + 1
+    if _scanned_forward_from(f, src, d):
+        N = L.form(n)
+        for c in f.calls("strlen"):
+            if _same_str(prog, f, c.ops[0], src):
+                D = L.add(L.add(L.form(c), {None: 1}), N, -1)
+                if L.nonneg(D):
+                    return ("S", "the string itself", "in-place shift towards the start: the source was reached from the destination "
+                            "by strchr and increments only, so it lies at or behind it in the same string")
     b1, o1 = L.offset_form(d)
     b2, o2 = L.offset_form(src)
     if o1 is None or o2 is None:
